@@ -6,6 +6,7 @@ package main
 import (
 	"fmt"
 	"go/token"
+	"go/types"
 	"regexp"
 	"strings"
 
@@ -266,6 +267,32 @@ func checkC11(c *Ctx, r *Report) {
 				}
 			}
 		}
+	}
+	// R11.7: what is written is what was packed: the write-multiple-coils encoders put the packed
+	// coil bytes on the wire unchanged (C01 R1.1 for the FC15 request encoders)
+	{
+		crc := c.fnMust("packet", "CRC16")
+		reqs := requestTypes(c, "packet")
+		n := 0
+		for _, m := range bytesMethods(c, "packet") {
+			tn := m.Signature.Recv().Type().(*types.Named)
+			fc, okFC := functionCodeOf(c, tn)
+			if !reqs[tn] || !okFC || fc != 15 || !(hasMBAP(tn) || callsDirect(m, crc)) {
+				continue
+			}
+			er := runEncoder(c, "packet", m, crc)
+			id := fnID(m)
+			r.funcs[id] = true
+			if !er.okay {
+				r.undecided("R11.7", id, "encoder not interpretable: "+er.why, c.pos(m.Pos()))
+				continue
+			}
+			tmp := newReport(r.Prop, r.Tier)
+			c01Encoder(c, tmp, er, id, hasMBAP(tn), false)
+			n += copyItems(tmp, r, "R1.1", "R11.7")
+		}
+		r.instance("R11.7", n)
+		r.floor("R11.7", 2)
 	}
 	// R11.5: a coil reply reaches the lookup at all: the exception recognisers the clients
 	// install claim a reply only if it is an exception frame of their own framing (a recogniser
